@@ -67,8 +67,8 @@ def cals():
 
 
 def ld(c, d):
-    from pyoda_time import LocalDate
-    return LocalDate._ctor(days_since_epoch=d, calendar=cals()[c])
+    import routes
+    return routes.routed_date(cals()[c], d)
 
 
 def dn(x):
